@@ -368,6 +368,20 @@ func (fv *FuncVC) resolveSourceName(env *SpecEnv, name string) (Val, bool) {
 	if a, ok := fv.aliases[name]; ok {
 		name = a
 	}
+	// inside old(..) a variable captured by reference denotes the content of its cell in the old state
+	if env.inOld && fr != nil {
+		for _, f := range fr.fn.FreeVars {
+			if f.Name() == name {
+				if p, ok := f.Type().Underlying().(*types.Pointer); ok {
+					v := fv.get(fr, f)
+					r := fv.load(env.cur, fv.addrOf(v.One(), p.Elem()))
+					r.T = p.Elem()
+					r.St = env.cur
+					return r, true
+				}
+			}
+		}
+	}
 	// $i: range index of the loop
 	if strings.HasPrefix(name, "$i") {
 		var li *loopInfo
@@ -451,6 +465,20 @@ func (fv *FuncVC) resolveSourceName(env *SpecEnv, name string) (Val, bool) {
 
 func (fv *FuncVC) debugRefLookup(env *SpecEnv, name string, phi *ssa.Phi) (Val, bool) {
 	fr := env.fr
+	// a local that lives in a cell (captured by a closure / address taken): its value is the content of the
+	// cell in the state at hand, whatever value a debug reference last recorded for it
+	for _, b := range fr.fn.Blocks {
+		for _, in := range b.Instrs {
+			if a, ok := in.(*ssa.Alloc); ok && a.Comment == name && a.Heap {
+				if v, computed := fr.vals[a]; computed {
+					pt := a.Type().Underlying().(*types.Pointer).Elem()
+					r := fv.load(env.cur, fv.addrOf(v.One(), pt))
+					r.T = pt
+					return r, true
+				}
+			}
+		}
+	}
 	// walk up the dominator tree from env.at; within a block take the last entry
 	for b := env.at; b != nil; b = b.Idom() {
 		es := fr.dbg[b]
